@@ -24,6 +24,10 @@ pub fn space_name_for_semantics<VM: VMBinding>(
 pub fn space_page_counters<VM: VMBinding>(mmtk: &MMTK<VM>) -> Vec<(&'static str, usize, usize)> {
     let mut out = vec![];
     mmtk.get_plan().for_each_space(&mut |space: &dyn Space<VM>| {
+        if space.get_name() == "MallocSpace" {
+            // the malloc space has no page resource (get_page_resource is unreachable!())
+            return;
+        }
         out.push((
             space.get_name(),
             space.reserved_pages(),
